@@ -552,7 +552,11 @@ class Ctx:
         }
         if self.level == "other" and "explanation" not in self.cov:
             self.cov["explanation"] = "; ".join(self.notes) or "see DESIGN.md"
-        with open(os.path.join(VERIF, "evidence", self.pid + ".json"), "w") as f:
+        # evidence under /verif/evidence only comes from runs against /repo itself; runs against a
+        # scratch copy (VERIF_REPO, mutation tests) write theirs next to their build tree
+        evdir = os.path.join(VERIF, "evidence") if REPO == "/repo" else os.path.join(BUILD, "evidence")
+        os.makedirs(evdir, exist_ok=True)
+        with open(os.path.join(evdir, self.pid + ".json"), "w") as f:
             json.dump(ev, f, indent=1, sort_keys=True, default=str)
             f.write("\n")
         for key, desc, path, found in self.violations:
